@@ -362,7 +362,11 @@ def run_predict(case, stt):
 def timeat_case(draw):
     pc = draw(polyco(mode="model", extra=draw(st.sampled_from([0, 0, 1, 2]))))
     n = len(pc["entries"])
-    return {"pc": pc, "j": draw(st.integers(0, n - 1)), "u": draw(st.floats(-0.45, 0.45)), "guess": draw(st.sampled_from(["none", "tmid", "near", "other_entry", "other_entry"])), "j2": draw(st.integers(0, n - 1)),
+    # (u: position in the entry's span, -1/2 .. 1/2; also a hair inside either end of the span -- at the end of the table an iterate of the
+    # root finder that oversteps has nowhere to go)
+    uu = draw(st.one_of(st.floats(-0.45, 0.45), st.floats(-0.45, 0.45),
+                        st.tuples(st.sampled_from([-1, 1]), st.sampled_from([1e-3, 1e-5, 1e-7, 1e-9])).map(lambda t: t[0] * (0.5 - t[1]))))
+    return {"pc": pc, "j": draw(st.sampled_from([0, n - 1, draw(st.integers(0, n - 1))])), "u": uu, "guess": draw(st.sampled_from(["none", "tmid", "near", "other_entry", "other_entry"])), "j2": draw(st.integers(0, n - 1)),
             "u2": draw(st.floats(-0.45, 0.45))}
 
 
@@ -420,6 +424,8 @@ def run_timeat(case, stt):
     stt.nt(len(ents) >= 2)
     stt.label("guess_" + case["guess"])
     stt.label("entries_%d" % len(ents))
+    if abs(case["u"]) > 0.49:
+        stt.label("near_span_end")
 
 
 SUBS = [
